@@ -53,6 +53,7 @@ type Ctx struct {
 	start     time.Time
 	deadline  time.Time
 	sliceEnd  time.Time
+	graceEnd  time.Time
 	trace     *os.File
 	sub       string
 	sampleCap int
@@ -132,9 +133,11 @@ func (c *Ctx) Distinct(key string) {
 // DistinctN adds n cases that are distinct by construction.
 func (c *Ctx) DistinctN(n int64) { c.Res.Nontrivial += n }
 
-func (c *Ctx) Outcome(class string)        { c.Res.Outcomes[class]++ }
-func (c *Ctx) Count(name string, n int64)  { c.Res.Counters[name] += n }
-func (c *Ctx) Note(format string, a ...any) { c.Res.Notes = append(c.Res.Notes, fmt.Sprintf(format, a...)) }
+func (c *Ctx) Outcome(class string)       { c.Res.Outcomes[class]++ }
+func (c *Ctx) Count(name string, n int64) { c.Res.Counters[name] += n }
+func (c *Ctx) Note(format string, a ...any) {
+	c.Res.Notes = append(c.Res.Notes, fmt.Sprintf(format, a...))
+}
 
 // Sample keeps a few written-out cases per sub-check.
 func (c *Ctx) Sample(v any) {
@@ -147,6 +150,9 @@ func (c *Ctx) Sample(v any) {
 // Expired reports whether the wall-clock guard fired; the caller stops enumerating
 // and the run is reported as not exhaustive (never as an alarm).
 func (c *Ctx) Expired() bool {
+	if !c.graceEnd.IsZero() && time.Now().Before(c.graceEnd) {
+		return false
+	}
 	if time.Now().After(c.deadline) || !c.sliceEnd.IsZero() && time.Now().After(c.sliceEnd) {
 		if c.Res.Exhaustive {
 			c.Res.Exhaustive = false
@@ -168,6 +174,12 @@ func (c *Ctx) Slice(parts int) {
 }
 
 func (c *Ctx) EndSlice() { c.sliceEnd = time.Time{} }
+
+// Grace lets the part that follows run for up to d whatever the wall-clock guard says (EndGrace ends it): for small
+// parts that must not be starved by open-ended enumerations sharing the guard.
+func (c *Ctx) Grace(d time.Duration) { c.graceEnd = time.Now().Add(d) }
+
+func (c *Ctx) EndGrace() { c.graceEnd = time.Time{} }
 
 func (c *Ctx) NotExhaustive(why string) {
 	c.Res.Exhaustive = false
@@ -226,7 +238,7 @@ type Check struct {
 
 var registry = map[string]*Check{}
 
-func Register(ch *Check) { registry[ch.ID] = ch }
+func Register(ch *Check)      { registry[ch.ID] = ch }
 func Lookup(id string) *Check { return registry[id] }
 func IDs() []string {
 	var ids []string
